@@ -294,10 +294,17 @@ func scenario(x *explore.X, everyOffset bool) {
 		cc := &ctx{stack: stack}
 		headStall = cc.headCut(sp.name) > 0
 	}
+	// the same for the TLS hello of an intercepted CONNECT: tls-handshake-timeout runs from the first byte of
+	// the hello; until then the connection is merely idle
+	var helloK int
+	helloStall := scan(sp.name, "mitm-partial-hello-%d", &helloK)
 	if headStall {
 		prior = x.Choose("prior-exchanges", 2)
 		quiet = []time.Duration{0, headerTO + time.Second, idleTO - time.Millisecond}[x.Choose("quiet-before-head", 3)]
 		finish = x.Choose("completes-head-1ms-before-limit", 2)
+	}
+	if helloStall {
+		quiet = []time.Duration{0, tlsTO + time.Second, idleTO - time.Millisecond}[x.Choose("quiet-before-hello", 3)]
 	}
 	t0 := time.Now()
 	var stalled []*peerConn
@@ -306,11 +313,30 @@ func scenario(x *explore.X, everyOffset bool) {
 		if headStall {
 			first = []string{"no-byte", "between-requests"}[prior]
 		}
+		if helloStall {
+			first = "mitm-after-connect-no-byte"
+		}
 		pc := c.open(first)
 		if pc == nil {
 			return
 		}
 		stalled = append(stalled, pc)
+	}
+	if helloStall {
+		world.Settle(quiet)
+		for i, pc := range stalled {
+			if pc.closedByProxy() {
+				x.Failf("closed-before-limit/idle", "stack %s: peer %d was closed %v after its CONNECT without having started the handshake, idle-timeout is %v", stack, i, time.Since(t0), idleTO)
+			}
+		}
+		if x.Failed() {
+			cleanup(x, w, c, stalled, nil)
+			return
+		}
+		t0 = time.Now()
+		for _, pc := range stalled {
+			pc.raw.Send(helloPrefix[:helloK])
+		}
 	}
 	if headStall {
 		if d := time.Since(t0); d != 0 {
@@ -434,7 +460,7 @@ func cleanup(x *explore.X, w *world.World, c *ctx, stalled []*peerConn, probe *p
 
 func TestC15(t *testing.T) {
 	s := explore.NewSuite(t, "C15", "model_checking",
-		"listener stacking(5: plain, TLS, PROXY protocol, PROXY protocol + TLS, MITM inside CONNECT) x every stall point of that stacking (no byte, partial PROXY header at 3 offsets, partial TLS hello at 2 offsets, after CONNECT, partial request head at 3 offsets, between requests, origin slow) [full product] x number of simultaneously stalled peers {1,2,8} x for stalls inside a request head: complete exchanges before it {0,1} x quiet period before its first byte {0, read-header-timeout+1s, idle-timeout-1ms} x {stall for good, complete the head 1 ms before the limit and be served} [bounded: quick <=2 deviations, thorough full product]; thorough additionally stalls at EVERY byte offset of the PROXY header, of the TLS hello prefix and of the request head; all on the virtual clock with distinct limits (idle 30 s, read-header 7 s, TLS handshake 5 s, PROXY header 3 s); states = quiescent states at t0, limit-1ms, limit+1ms; oracle: probe client connecting at the same virtual instant is served in 0 s, stalled sockets open at limit-1ms and closed at limit+1ms, never closed while only the origin is slow (10 virtual minutes), the late answer is delivered")
+		"listener stacking(5: plain, TLS, PROXY protocol, PROXY protocol + TLS, MITM inside CONNECT) x every stall point of that stacking (no byte, partial PROXY header at 3 offsets, partial TLS hello at 2 offsets, after CONNECT, partial request head at 3 offsets, between requests, origin slow) [full product] x number of simultaneously stalled peers {1,2,8} x for stalls inside a request head: complete exchanges before it {0,1} x quiet period before its first byte {0, read-header-timeout+1s, idle-timeout-1ms} x {stall for good, complete the head 1 ms before the limit and be served}; for stalls inside the TLS hello of an intercepted CONNECT: quiet period between the 200 and the first hello byte {0, tls-handshake-timeout+1s, idle-timeout-1ms} [bounded: quick <=2 deviations, thorough full product]; thorough additionally stalls at EVERY byte offset of the PROXY header, of the TLS hello prefix and of the request head; all on the virtual clock with distinct limits (idle 30 s, read-header 7 s, TLS handshake 5 s, PROXY header 3 s); states = quiescent states at t0, limit-1ms, limit+1ms; oracle: probe client connecting at the same virtual instant is served in 0 s, stalled sockets open at limit-1ms and closed at limit+1ms, never closed while only the origin is slow (10 virtual minutes), the late answer is delivered")
 	s.Assume = []string{"testing/synctest virtual clock: time advances only when every goroutine of the proxy is durably blocked", "sync.Mutex held across timed waits in proxy.go and proxyproto/net.go replaced by a channel mutex at build time (vsync) so the virtual clock can advance"}
 	s.Add(explore.Scenario{Name: "stalls", Remote: true, MaxDev: map[string]int{"quick": 2, "thorough": 4},
 		Run: func(x *explore.X) { world.Run(t, x, func() { scenario(x, false) }) }})
